@@ -131,11 +131,11 @@ func (ev *evidence) add(l *loaded, o Obligation, b *Bounds, res *interp.Result) 
 			ev.samples = append(ev.samples, map[string]any{"entry": o.Entry, "outcome": s.Outcome, "decisions": len(s.Trace), "inputs": rf.Inputs, "events": truncList(s.Events, 40), "path_condition": s.PC})
 		}
 	}
-	if len(sampleFiles) > 0 && !*flagNoNative {
+	if len(sampleFiles) > 0 && !*flagNoNative && b.Native != "off" {
 		okN, badN, msgs := nativeReplay(o.Group, sampleFiles)
 		oe.NativeReplay = map[string]int{"passing_paths_replayed": okN + badN, "trace_identical": okN, "mismatch": badN}
 		ev.validated += okN
-		if badN > 0 {
+		if badN > 0 && b.Native != "besteffort" {
 			for _, m := range msgs {
 				fmt.Println("ERROR native-replay-mismatch " + m)
 			}
@@ -159,7 +159,7 @@ func (ev *evidence) add(l *loaded, o Obligation, b *Bounds, res *interp.Result) 
 			continue
 		}
 		confirmed := "engine-only"
-		if !*flagNoNative {
+		if !*flagNoNative && b.Native != "off" {
 			okN, _, msgs := nativeReplay(o.Group, []replayFileT{rf})
 			if okN == 1 {
 				confirmed = "native"
@@ -167,7 +167,7 @@ func (ev *evidence) add(l *loaded, o Obligation, b *Bounds, res *interp.Result) 
 				confirmed = "not-reproduced: " + strings.Join(msgs, "; ")
 			}
 		}
-		if strings.HasPrefix(confirmed, "not-reproduced") && b.Sched != "all" && b.Preempt == 0 {
+		if strings.HasPrefix(confirmed, "not-reproduced") && b.Sched != "all" && b.Preempt == 0 && b.Native != "besteffort" {
 			fmt.Printf("ERROR spurious counterexample (does not replay natively) %s: %s — %s [%s]\n", o.Entry, v.Label, v.Msg, confirmed)
 			code = max(code, 2)
 			continue
@@ -390,12 +390,15 @@ func nativeReplay(group string, files []replayFileT) (ok, bad int, msgs []string
 		case "sample":
 			if g.outcome == "DONE" && eqStrings(g.events, f.Events) {
 				ok++
+			} else if strings.HasPrefix(g.outcome, "KNOWN-FINDING ") && isPrefix(g.events, f.Events) {
+				// the sampled input lies in the region of a listed known finding
+				ok++
 			} else {
 				bad++
 				msgs = append(msgs, fmt.Sprintf("%s sample: native outcome %q, events native=%v engine=%v", f.Entry, g.outcome, truncList(g.events, 30), truncList(f.Events, 30)))
 			}
 		case "assert":
-			if g.outcome == "ASSERT-FAILED "+f.Label {
+			if g.outcome == "ASSERT-FAILED "+f.Label || (f.KF != "" && g.outcome == "KNOWN-FINDING "+f.KF+" "+f.Label) {
 				ok++
 			} else {
 				bad++
@@ -428,6 +431,13 @@ func truncateS(s string, n int) string {
 		return s[len(s)-n:]
 	}
 	return s
+}
+
+func isPrefix(a, b []string) bool {
+	if len(a) > len(b) {
+		return false
+	}
+	return eqStrings(a, b[:len(a)])
 }
 
 func eqStrings(a, b []string) bool {
